@@ -46,18 +46,31 @@ def go_env():
 
 
 class Lock:
+    """file lock; the "coq" lock guards /verif/coq (shared by runs against /repo and against a scratch copy),
+    every other lock is private to the work root"""
     def __init__(self, name):
         os.makedirs(WORK, exist_ok=True)
-        self.path = os.path.join(WORK, "." + name + ".lock")
+        root = os.path.join(VERIF, "work") if name == "coq" else WORK
+        os.makedirs(root, exist_ok=True)
+        self.path = os.path.join(root, "." + name + ".lock")
+
+    _held = {}   # path -> nesting depth (re-entrant within one process)
 
     def __enter__(self):
+        if Lock._held.get(self.path, 0) > 0:
+            Lock._held[self.path] += 1
+            self.f = None
+            return self
         self.f = open(self.path, "w")
         fcntl.flock(self.f, fcntl.LOCK_EX)
+        Lock._held[self.path] = 1
         return self
 
     def __exit__(self, *a):
-        fcntl.flock(self.f, fcntl.LOCK_UN)
-        self.f.close()
+        Lock._held[self.path] -= 1
+        if self.f is not None:
+            fcntl.flock(self.f, fcntl.LOCK_UN)
+            self.f.close()
 
 
 def run(cmd, cwd=None, timeout=None, env=None, input=None):
@@ -242,6 +255,33 @@ def capture_assumptions(pid, timeout=600):
     return ok, out, res
 
 
+def coqchk_props(pid, timeout=5400):
+    """thorough tier: independent re-check of Props/<pid>.vo and everything it depends on with coqchk;
+    returns (ok, summary-lines)"""
+    with Lock("coq"):
+        rc, out = run(["coqchk", "-silent", "-o", "-Q", ".", "GoHls", "GoHls.Props.%s" % pid], cwd=COQ, timeout=timeout)
+    os.makedirs(os.path.join(COQ, "out"), exist_ok=True)
+    open(os.path.join(COQ, "out", pid + ".coqchk"), "w").write(out)
+    i = out.find("CONTEXT SUMMARY")
+    summ = out[i:] if i >= 0 else out[-1500:]
+    items = {}
+    for mm in re.finditer(r"\* ([^:\n]+):\s*(.*?)(?=\n\s*\n|\Z)", summ, re.S):
+        items[mm.group(1).strip()] = " ".join(mm.group(2).split())
+    ok = (rc == 0 and i >= 0)
+    axs = items.get("Axioms", "?")
+    if axs != "<none>":
+        names = re.findall(r"([A-Za-z0-9_.']+)", axs)
+        bad = [a for a in names if a not in ALLOWED_AXIOMS and a.split(".")[-1] not in ALLOWED_AXIOMS]
+        if bad or axs == "?":
+            ok = False
+    for k in ("Constants/Inductives relying on type-in-type", "Constants/Inductives relying on unsafe (co)fixpoints",
+              "Inductives whose positivity is assumed"):
+        if items.get(k, "?") != "<none>":
+            ok = False
+    lines = ["coqchk -silent -o GoHls.Props.%s: exit %d" % (pid, rc)] + ["%s: %s" % kv for kv in items.items()]
+    return ok, lines, (out[-2000:] if not ok else "")
+
+
 # ---------------------------------------------------------------- harness
 def build_harness(name, tags="verif", race=False, timeout=900):
     """go build ./cmd/<name> against /repo's working tree; returns (ok, log, binpath)"""
@@ -355,6 +395,17 @@ def write_replay(pid, kind, payload):
 
 
 def main_check(pid, tier, seed, replay=None):
+    # two invocations for the same property share work/<pid>: one at a time
+    with Lock("check-" + pid):
+        if hasattr(load_tie_module(pid), "translate"):
+            # this property's model is partly regenerated into coq/Generated: nobody else may rebuild /verif/coq
+            # (e.g. a run against a scratch copy of /repo) between the translation and the last model evaluation
+            with Lock("coq"):
+                return _main_check(pid, tier, seed, replay)
+        return _main_check(pid, tier, seed, replay)
+
+
+def _main_check(pid, tier, seed, replay=None):
     t0 = time.time()
     mod = load_tie_module(pid)
     meta = mod.META
@@ -366,17 +417,26 @@ def main_check(pid, tier, seed, replay=None):
 
     # G. gates (over the files this property's theorems and tie depend on; setup scans everything)
     gp = gates(closure)
-    # translators (regenerate coq/Generated from /repo) if the tie has any
-    if hasattr(mod, "translate"):
-        terr = mod.translate()
-        if terr:
-            gp.append("translator: " + terr)
+    # the translators write coq/Generated, the build reads it: one run at a time from here to the end of the
+    # proof leg (a run against a scratch copy of /repo shares /verif/coq with the runs against /repo)
+    with Lock("coq"):
+        # translators (regenerate coq/Generated from /repo) if the tie has any
+        if hasattr(mod, "translate"):
+            terr = mod.translate()
+            if terr:
+                gp.append("translator: " + terr)
 
-    # P. proof leg
-    proof_ok, build_log = coq_build(targets)
-    ass_ok, ass_text, thms = (False, "", [])
-    if proof_ok:
-        ass_ok, ass_text, thms = capture_assumptions(pid)
+        # P. proof leg
+        proof_ok, build_log = coq_build(targets)
+        ass_ok, ass_text, thms = (False, "", [])
+        if proof_ok:
+            ass_ok, ass_text, thms = capture_assumptions(pid)
+        chk_lines = []
+        if proof_ok and ass_ok and tier == "thorough" and not replay:
+            chk_ok, chk_lines, chk_tail = coqchk_props(pid)
+            if not chk_ok:
+                ass_ok = False
+                ass_text += "\n[driver] coqchk did not accept Props/%s.vo and its closure:\n%s" % (pid, chk_tail)
     obligations = count_obligations(closure)
     proof_failed = (not proof_ok) or (not ass_ok) or bool(gp)
     failing_theorem = None
@@ -456,6 +516,8 @@ def main_check(pid, tier, seed, replay=None):
     trusted = list(meta.get("trusted_base", []))
     trusted.append("Coq 8.16.1 kernel (coqc), vm_compute; no native_compute")
     trusted.append("Print Assumptions: " + "; ".join("%s: %s" % (t["name"], t["assumptions"]) for t in thms))
+    if chk_lines:
+        trusted.append("independent re-check (thorough tier): " + "; ".join(chk_lines))
     ev = {
         "property_id": pid, "tier": tier, "seed": seed, "level": "proof",
         "coverage": {
